@@ -348,7 +348,7 @@ package trzsz
 //@   requires [C09] createdIn(t)
 //@   requires [C10] createdMade(t)
 //@   requires [C09] within(destDir, path)
-//@   requires [C10] madeByUs[path]
+//@   requires [C10,C07] madeByUs[path]
 //@   assigns t.createdFiles, elemsof("string")
 //@   ensures [C09] createdIn(t)
 //@   ensures [C10] createdMade(t)
@@ -391,9 +391,9 @@ package trzsz
 //@   ensures forall r int {heap("string")[r]} :: r != old(ref(t.createdFiles)) && r <= old(alloc()) ==> heap("string")[r] == old(heap("string"))[r]
 //@   # C10: a directory this transfer made (it did not exist and MkdirAll succeeded) is on the clean-up list;
 //@   # one that existed is not
-//@   ensures [C10] r0 == nil && result_of("os.IsNotExist", 0, 0) ==> \
+//@   ensures [C10,C07] r0 == nil && result_of("os.IsNotExist", 0, 0) ==> \
 //@       len(t.createdFiles) == old(len(t.createdFiles)) + 1 && t.createdFiles[len(t.createdFiles) - 1] == path
-//@   ensures [C10] !result_of("os.IsNotExist", 0, 0) ==> len(t.createdFiles) == old(len(t.createdFiles))
+//@   ensures [C10,C07] !result_of("os.IsNotExist", 0, 0) ==> len(t.createdFiles) == old(len(t.createdFiles))
 //@ end
 
 //@ func trzszTransfer.deleteCreatedFiles
@@ -813,7 +813,7 @@ package trzsz
 //@   requires !typeis(t.writer, "*md5.digest")
 //@   assigns fields(t.buffer), recvd, bufLen, bufCap, bufArr, elemsof("byte"), wlog, wlen, fpos, fsize
 //@   ensures tbWF(t.buffer)
-//@   ensures [C02,C08] r0 == nil && old(tgtFile.Size) > 0 && result_of("fileWriter.getFile", 0, 0) != nil ==> \
+//@   ensures [C02,C08,C01] r0 == nil && old(tgtFile.Size) > 0 && result_of("fileWriter.getFile", 0, 0) != nil ==> \
 //@       fsize[result_of("fileWriter.getFile", 1, 0)] == fpos[result_of("fileWriter.getFile", 1, 0)]
 //@   # agreed: the step of the last acknowledgement sent with Match=true (history the code keeps only implicitly)
 //@   ghostvar agreed int64 = 0
@@ -1270,9 +1270,23 @@ package trzsz
 
 //@ func TrzszRelay.sendStringToClient
 //@   assigns wlog, wlen, inLog, inLen, outLog, outLen
+//@   # C17: handshake lines go through the tunnel only if both ends agreed on it - the relay's own "tunnel
+//@   # connected" flag (set from the client's action) was read true for this very decision; the mere existence
+//@   # of a tunnel relay is not enough
+//@   ghostvar agreedNow bool = false
+//@   after atomic.Bool.Load set agreedNow = r0
+//@   after atomic.Pointer.Load[github.com/trzsz/trzsz-go/trzsz.tunnelRelay] set agreedNow = false
+//@   before send:t.serverBufChan assert [C17,C14] agreedNow
 //@ end
 //@ func TrzszRelay.sendStringToServer
 //@   assigns wlog, wlen, inLog, inLen, outLog, outLen
+//@   # C17: handshake lines go through the tunnel only if both ends agreed on it - the relay's own "tunnel
+//@   # connected" flag (set from the client's action) was read true for this very decision; the mere existence
+//@   # of a tunnel relay is not enough
+//@   ghostvar agreedNow bool = false
+//@   after atomic.Bool.Load set agreedNow = r0
+//@   after atomic.Pointer.Load[github.com/trzsz/trzsz-go/trzsz.tunnelRelay] set agreedNow = false
+//@   before send:t.clientBufChan assert [C17,C14] agreedNow
 //@ end
 //@ func TrzszRelay.sendAction
 //@   assigns wlog, wlen, inLog, inLen, outLog, outLen
@@ -1339,6 +1353,13 @@ package trzsz
 //@       outLen - old(outLen) == cur(r.stdoutBuffer) - old(cur(r.stdoutBuffer))
 //@     invariant [C13] forall k int {inLog[k]} :: old(inLen) <= k && k < inLen ==> inLog[k] == G[r.stdinBuffer][old(cur(r.stdinBuffer)) + k - old(inLen)]
 //@     invariant [C13] forall k int {outLog[k]} :: old(outLen) <= k && k < outLen ==> outLog[k] == G[r.stdoutBuffer][old(cur(r.stdoutBuffer)) + k - old(outLen)]
+//@   # C17: parked bytes are flushed through the tunnel only if both ends agreed on it (flag read true for this
+//@   # very decision)
+//@   ghostvar agreedNow bool = false
+//@   after atomic.Bool.Load set agreedNow = r0
+//@   after atomic.Pointer.Load[github.com/trzsz/trzsz-go/trzsz.tunnelRelay] set agreedNow = false
+//@   before send:t.clientBufChan assert [C17] agreedNow
+//@   before send:t.serverBufChan assert [C17] agreedNow
 //@ end
 
 //@ # ASSUMED: runs "tmux refresh-client"; no effect on memory
@@ -1361,6 +1382,13 @@ package trzsz
 //@     invariant [C14] !sawEnd
 //@     invariant [C13] !windowsRuntime ==> rdLen[r.clientIn] - old(rdLen)[r.clientIn] == \
 //@         (sentBytes[r.stdinBuffer] - old(sentBytes)[r.stdinBuffer]) + (inLen - old(inLen))
+//@   # C13: every read gets a buffer of its own - a chunk that was parked or queued is never overwritten by a
+//@   # later read (the buffer of the previous read is not the buffer of this one)
+//@   ghostvar lastBuf int = 0
+//@   after io.Reader.Read set lastBuf = ref(p0)
+//@   before io.Reader.Read assert [C13] ref(p0) != lastBuf && ref(p0) != 0
+//@   loop 1
+//@     invariant [C13] lastBuf <= alloc()
 //@ end
 
 // ===========================================================================
@@ -1522,6 +1550,17 @@ package trzsz
 //@       (forall k int {wlog[old(filter.serverIn)][k]} :: old(wlen)[old(filter.serverIn)] <= k && k < wlen[old(filter.serverIn)] ==> \
 //@           wlog[old(filter.serverIn)][k] == old(buf[k - old(wlen)[old(filter.serverIn)]]))
 //@   before zmodemTransfer.stopTransferringFiles assert [C19] len(buf) == 1 && buf[0] == 3
+//@   # ... and that Ctrl-C itself is not swallowed once the session is over: whatever the chunk is, when the
+//@   # session says it is not transferring (as read by this call) the final write to the server is reached,
+//@   # with the chunk as it was handed in
+//@   ghostvar fwd bool = false
+//@   after writeAll set fwd = true
+//@   before writeAll assert [C05,C19] dst == filter.serverIn && same(data, buf)
+//@   ensures [C05,C19] result_of("atomic.Pointer.Load[io.PipeWriter]", 0, 0) == nil && \
+//@       result_of("atomic.Pointer.Load[github.com/trzsz/trzsz-go/trzsz.trzszTransfer]", 0, 0) == nil && \
+//@       old(filter.options.EnableZmodem) && \
+//@       result_of("atomic.Pointer.Load[github.com/trzsz/trzsz-go/trzsz.zmodemTransfer]", 0, 0) != nil && \
+//@       !result_of("zmodemTransfer.isTransferringFiles", 0, 0) && !result_of("atomic.Bool.Load", 0, 0) ==> fwd
 //@ end
 
 //@ func TrzszFilter.resetDragFiles
@@ -1584,6 +1623,17 @@ package trzsz
 //@   loop 1
 //@     invariant !detector.relay && detector.uniqueIDMap != nil
 //@     invariant [C19] !undropped
+//@     invariant [C06] !unseen
+//@   # C06 (completeness): every chunk read that is not handed to a running transfer or claimed by a zmodem
+//@   # session is shown to the trigger detector before the next read - no state of the filter (an interrupted
+//@   # upload, a hidden echo) can make a genuine trigger pass unseen; and a trigger the detector returned
+//@   # starts a handler
+//@   ghostvar unseen bool = false
+//@   after io.Reader.Read set unseen = r0 > 0
+//@   after trzszTransfer.addReceivedData set unseen = false
+//@   after zmodemTransfer.handleServerOutput set unseen = !r0
+//@   after trzszDetector.detectTrzsz set unseen = r1 != nil
+//@   after go:TrzszFilter.handleTrzsz set unseen = false
 //@   before writeAll#1 assert [C05,C06] trigger == nil && (same(result_of("traceLogger.writeTraceLog", 0, 0), buffer[0:n]) ==> \
 //@       dst == filter.clientOut && same(data, buffer[0:n]) && n == result_of("io.Reader.Read", 0, 0))
 //@   before writeAll#0 assert [C05] same(result_of("traceLogger.writeTraceLog", 0, 0), buffer[0:n]) ==> \
@@ -1683,6 +1733,11 @@ package trzsz
 //@ func trzszTransfer.stopTransferringFiles
 //@   before atomic.Bool.Store assert [C10] result_of("atomic.Bool.CompareAndSwap", 0, 0) && p0 == stopAndDelete
 //@   before trzszBuffer.stopBuffer assert [C10] result_of("atomic.Bool.CompareAndSwap", 0, 0)
+//@   # the call that latched the stop always wakes the blocked reader - with or without a tunnel (a reader that is
+//@   # not woken ends only with its receive timeout, or never)
+//@   ghostvar woke bool = false
+//@   after trzszBuffer.stopBuffer set woke = true
+//@   ensures [C10,C11] result_of("atomic.Bool.CompareAndSwap", 0, 0) ==> woke
 //@ end
 
 //@ func trzszError.isStopAndDelete pure
@@ -1867,6 +1922,13 @@ package trzsz
 //@   before atomic.Int32.Store assert [C13] recv == r.relayStatus && p0 == kRelayHandshaking
 //@   before go:TrzszRelay.handshake assert [C13,C06] switched
 //@   before send:r.osStdoutChan assert [C13,C06] result_of("trzszDetector.detectTrzsz", 0, 1) != nil ==> switched
+//@   # C13: every read gets a buffer of its own - a chunk that was parked or queued is never overwritten by a
+//@   # later read (the buffer of the previous read is not the buffer of this one)
+//@   ghostvar lastBuf int = 0
+//@   after io.Reader.Read set lastBuf = ref(p0)
+//@   before io.Reader.Read assert [C13] ref(p0) != lastBuf && ref(p0) != 0
+//@   loop 1
+//@     invariant [C13] lastBuf <= alloc()
 //@ end
 
 //@ # The connecting side of the tunnel: the connection is handed on for adoption only after our greeting
@@ -2018,6 +2080,13 @@ package trzsz
 //@   before bytes.Contains assert [C14] same(p0, buf)
 //@   loop 1
 //@     invariant [C14] !sawEnd
+//@   # C13: every read gets a buffer of its own - a chunk that was parked or queued is never overwritten by a
+//@   # later read (the buffer of the previous read is not the buffer of this one)
+//@   ghostvar lastBuf int = 0
+//@   after io.Reader.Read set lastBuf = ref(p0)
+//@   before io.Reader.Read assert [C13] ref(p0) != lastBuf && ref(p0) != 0
+//@   loop 1
+//@     invariant [C13] lastBuf <= alloc()
 //@ end
 //@ func tunnelRelay.wrapOutput
 //@   # C14: end of a transfer - whenever a chunk that carries an end marker (#EXIT:, #FAIL:, #fail:) was
@@ -2028,6 +2097,13 @@ package trzsz
 //@   before bytes.Contains assert [C14] same(p0, buf)
 //@   loop 1
 //@     invariant [C14] !sawEnd
+//@   # C13: every read gets a buffer of its own - a chunk that was parked or queued is never overwritten by a
+//@   # later read (the buffer of the previous read is not the buffer of this one)
+//@   ghostvar lastBuf int = 0
+//@   after io.Reader.Read set lastBuf = ref(p0)
+//@   before io.Reader.Read assert [C13] ref(p0) != lastBuf && ref(p0) != 0
+//@   loop 1
+//@     invariant [C13] lastBuf <= alloc()
 //@ end
 
 //@ # C14: the servers honour what the (possibly relay-narrowed) action allows - binary framing is used only
@@ -2551,4 +2627,76 @@ package trzsz
 //@   before trzszTransfer.sendString assert [C01] p0 == "NAME" && \
 //@       same(p1, ite(old(t.transferConfig.Directory), result_of("sourceFile.marshalSourceFile", 0, 0), result_of("sourceFile.getFileName", 0, 0)))
 //@   ensures [C01] r2 == nil ==> same(r1, result_of("trzszTransfer.recvString", 0, 0)) && result_of("trzszTransfer.recvString", 0, 1) == nil
+//@ end
+
+//@ # With overwrite requested, sources that would land on the same destination name are refused: success
+//@ # means the joined relative paths of all entries are pairwise different (jn[k] is the path joined for the
+//@ # k-th entry, in order; every entry is looked at).
+//@ func checkDuplicateNames
+//@   ghostvar cnt int = 0
+//@   ghostvar jn map[int]string
+//@   after filepath.Join set jn = upd(jn, cnt, r0)
+//@   after filepath.Join set cnt = cnt + 1
+//@   before filepath.Join assert [C08] 0 <= cnt && cnt < len(sourceFiles) && same(p0, sourceFiles[cnt].RelPath)
+//@   loop 1
+//@     invariant [C08] cnt == #i && #i <= len(sourceFiles)
+//@     invariant [C08] forall k int {jn[k]} :: 0 <= k && k < cnt ==> has(m, jn[k])
+//@     invariant [C08] forall a int, b int {jn[a], jn[b]} :: 0 <= a && a < b && b < cnt ==> !same(jn[a], jn[b])
+//@   ensures [C08] r0 == nil ==> cnt == len(sourceFiles) && \
+//@       (forall a int, b int {jn[a], jn[b]} :: 0 <= a && a < b && b < cnt ==> !same(jn[a], jn[b]))
+//@ end
+
+//@ # Building the escape table from the announced pairs (frame / whole view): a byte that no announced pair
+//@ # names has no escape code, and a code that no announced pair names decodes to nothing - the table holds
+//@ # the announced pairs and nothing else (ab[k], ac[k]: the byte and the code the k-th pair decoded to).
+//@ func escapeCharsToTable
+//@   ghostvar n int = 0
+//@   ghostvar ab map[int]int
+//@   ghostvar ac map[int]int
+//@   after encoding.Encoder.Bytes#0 set ab = upd(ab, n, ite(len(r0) > 0, r0[0], 0 - 1))
+//@   after encoding.Encoder.Bytes#1 set ac = upd(ac, n, ite(len(r0) > 1, r0[1], 0 - 1))
+//@   after encoding.Encoder.Bytes#1 set n = n + 1
+//@   loop 1
+//@     invariant [C04] table != nil && len(table.escapeCodes) == 256 && len(table.unescapeCodes) == 256 && 0 <= n
+//@     invariant [C04] forall b int {table.escapeCodes[b]} :: 0 <= b && b < 256 && \
+//@         (forall k int {ab[k]} :: 0 <= k && k < n ==> ab[k] != b) ==> table.escapeCodes[b] == nil
+//@     invariant [C04] forall c int {table.unescapeCodes[c]} :: 0 <= c && c < 256 && \
+//@         (forall k int {ac[k]} :: 0 <= k && k < n ==> ac[k] != c) ==> table.unescapeCodes[c] == nil
+//@   ensures [C04] r1 == nil ==> r0 != nil && len(r0.escapeCodes) == 256 && len(r0.unescapeCodes) == 256 && \
+//@       r0.totalCount == len(escapeChars)
+//@   ensures [C04] r1 == nil ==> (forall b int {r0.escapeCodes[b]} :: 0 <= b && b < 256 && \
+//@         (forall k int {ab[k]} :: 0 <= k && k < n ==> ab[k] != b) ==> r0.escapeCodes[b] == nil)
+//@   ensures [C04] r1 == nil ==> (forall c int {r0.unescapeCodes[c]} :: 0 <= c && c < 256 && \
+//@         (forall k int {ac[k]} :: 0 <= k && k < n ==> ac[k] != c) ==> r0.unescapeCodes[c] == nil)
+//@ end
+
+//@ # The server's CFG (trz/tsz side): junk tolerance is announced whenever the server runs in tmux normal
+//@ # mode - whether or not the pane width is known -, the pane width whenever it is known; binary exactly when
+//@ # asked for or over a tunnel; the directory / overwrite wishes, buffer size and timeout always as given.
+//@ # (closes the standard input and schedules the terminal reset; touches nothing the transfer's memory)
+//@ func trzszTransfer.switchToBackground
+//@   assigns nothing
+//@ end
+//@ func trzszTransfer.sendConfig
+//@   before json.Marshal assert [C16,C14] tmuxMode == tmuxNormalMode ==> has(cfgMap, "tmux_output_junk")
+//@   before json.Marshal assert [C16,C14] tmuxPaneWidth > 0 ==> has(cfgMap, "tmux_pane_width")
+//@   before json.Marshal assert [C14] has(cfgMap, "binary") == (action.TunnelConnected || args.Binary)
+//@   before json.Marshal assert [C14] (args.Directory ==> has(cfgMap, "directory")) && (args.Overwrite ==> has(cfgMap, "overwrite")) && \
+//@       has(cfgMap, "bufsize") && has(cfgMap, "timeout") && has(cfgMap, "lang")
+//@   before json.Marshal assert [C14] action.Protocol > 0 ==> has(cfgMap, "protocol")
+//@ end
+
+//@ # The sender's scan: an entry is announced under the name the directory lists it with - the relative path
+//@ # handed down is the parent's, extended by exactly that name; top-level entries are announced under the
+//@ # base name the file system reports.
+//@ func checkPathReadable
+//@   ghostvar nm string
+//@   after iface.Name set nm = r0
+//@   before checkPathReadable assert [C15,C01] len(p4) == len(relPath) + 1 && same(p4[len(relPath)], nm) && \
+//@       (forall k int {p4[k]} :: 0 <= k && k < len(relPath) ==> same(p4[k], relPath[k])) && p0 == pathID
+//@ end
+//@ func checkPathsReadable
+//@   ghostvar nm string
+//@   after iface.Name set nm = r0
+//@   before checkPathReadable assert [C15,C01] len(p4) == 1 && same(p4[0], nm)
 //@ end
